@@ -610,60 +610,9 @@ async fn run_history(g: &mut Group, h: u64, nrep: usize, n_rand: usize, rng: &mu
 }
 
 
-async fn probe() {
-    let g = new_group().await;
-    let u = Uuid::from_u128(UBASE + 0xffff_0001);
-    let mk = |n: &str, posix: bool| {
-        let mut e: Entry<EntryInit, EntryNew> = kanidmd_lib::entry_init!(
-            (Attribute::Class, EntryClass::Object.to_value()),
-            (Attribute::Class, EntryClass::Group.to_value()),
-            (Attribute::Name, Value::new_iname(n)),
-            (Attribute::Uuid, Value::Uuid(u))
-        );
-        if posix {
-            e.add_ava(Attribute::Class, EntryClass::PosixGroup.to_value());
-            e.add_ava(Attribute::GidNumber, Value::Uint32(123456));
-        }
-        e
-    };
-    let mut t = g.t + 5;
-    let mut w = g.srv[0].write(Duration::from_secs(t)).await.expect("w");
-    w.internal_create(vec![mk("probea", false)]).expect("create a");
-    w.commit().expect("commit");
-    t += 1;
-    let mut w = g.srv[1].write(Duration::from_secs(t)).await.expect("w");
-    w.internal_create(vec![mk("probeb", true)]).expect("create b");
-    w.commit().expect("commit");
-    let with_reverse = std::env::var("C19_PROBE").map(|v| v == "2").unwrap_or(false);
-    if with_reverse {
-        t += 1;
-        repl_incremental(&g.srv[1], &g.srv[0], Duration::from_secs(t)).await.expect("repl 0<-1");
-    }
-    t += 1;
-    {
-        let mut w = g.srv[1].write(Duration::from_secs(t)).await.expect("write");
-        let mut r = g.srv[0].read().await.expect("read");
-        let range = w.consumer_get_state().expect("state");
-        let changes = r.supplier_provide_changes(range).expect("changes");
-        w.consumer_apply_changes(changes).expect("apply");
-        let f = filter_all!(f_eq(Attribute::SourceUuid, PartialValue::Uuid(u)));
-        let inside = w.internal_search(f.clone()).expect("search");
-        eprintln!("INSIDE TXN: {:?}", inside);
-        drop(r);
-        w.commit().expect("commit");
-        let mut r = g.srv[1].read().await.expect("read");
-        let after = r.internal_search(f).expect("search");
-        eprintln!("AFTER COMMIT: {:?}", after);
-    }
-}
-
 fn main() {
     let args = parse_args();
-    if std::env::var("C19_PROBE").is_ok() {
-        let rt = tokio::runtime::Builder::new_current_thread().enable_all().build().expect("rt");
-        rt.block_on(probe());
-        return;
-    }
+
     let mut rng = Rng::new(args.seed);
     let mut sink = Sink::new(&args, "KV.C19.Model", 4);
     sink.rule = "random histories on 1-3 real in-memory QueryServers of one domain: creates (1-2 entries per request), renames and \
